@@ -9,6 +9,7 @@ CONSTANTS
   MaxObjs = 3
   Parents = {"none"}
   Fmts = {"F1", "F2"}
+  SecondReport = FALSE
   Variant = "shared_table"
 INVARIANT ExactlyOnce
 INVARIANT RightList
